@@ -105,6 +105,7 @@ func TestPlan(t *testing.T) {
 		// the binary leg of C03: the selected task comes from the command line, from the default task or from `--clean`
 		p.Rule = "binary leg: graphs on 1-4 tasks (cyclic and acyclic, optional undefined dependency) where the first task is selected by name, implicitly as the default task (bare `spok`) or as the user-defined clean task (`spok --clean`), with and without --force/--json/--quiet; the side-effect log must show the selected task's closure exactly once, dependencies first, or an error and no command at all"
 		binShards("^TestGraphBinary$", 8, 50, 16, 600)
+		p.Shards = append(p.Shards, ev.ShardSpec{Name: "graphtemplates-0", Test: "^TestGraphTemplates$", TimeoutS: 900})
 	case "C05":
 		// output globs through the CLI: --clean removes exactly the files the pattern denotes
 		p.Rule = "binary leg: project trees x spokfiles whose outputs are glob patterns only (incl. patterns whose matches are string-prefix siblings such as bin/app and bin/app.sha256); `spok --clean` must remove exactly the files the reference matcher says each pattern denotes"
@@ -771,6 +772,41 @@ func TestErrBinary(t *testing.T) {
 		}
 		return execErrBinary(s, b, c)
 	})
+}
+
+// TestGraphTemplates: every spelling of a name that names no task x its place among the requested
+// names x flags, on a two-task chain; and the same requests with every name defined.
+func TestGraphTemplates(t *testing.T) {
+	s := ev.Open(t, "C03")
+	b := newBox(t)
+	seen := map[string]bool{}
+	spellings := []string{"notatask", "", " ", "\t", "  ", "ALPHA", "alpha ", " alpha", "alph", "alphaa", "alpha,bravo", "-"}
+	for _, flags := range [][]string{nil, {"--force"}, {"--json"}, {"--quiet"}} {
+		for _, req := range [][]int{{0}, {1}, {0, 1}, {1, 0}} {
+			for pos := 0; pos <= len(req)+1; pos++ {
+				for i := range spellings {
+					c := GraphBinCase{N: 2, Edges: [][2]int{{0, 1}}, Via: "name", Undef: -1, Flags: flags, Req: req}
+					if pos > 0 {
+						c.ReqUndef, c.UndefName = pos, &spellings[i]
+					} else if i > 0 {
+						continue
+					}
+					if c.UndefName != nil && *c.UndefName == "-" && pos != len(req)+1 {
+						continue // a lone dash is only safely an argument at the end
+					}
+					s.Eval()
+					s.Class("enumerated_undefined_requests")
+					if f := execGraphBin(s, b, c); f != nil && !seen[f.Sig] {
+						seen[f.Sig] = true
+						s.Violation("graphbin", f.Sig, f.Msg, f.Size, c)
+					}
+				}
+			}
+		}
+	}
+	if s.Failed() {
+		t.Fatal("violations recorded")
+	}
 }
 
 func TestGraphBinary(t *testing.T) {
